@@ -788,6 +788,8 @@ def install(reg):
         a = A.fresh_arr(st, 'real', 'rand', n=I(size))
         i = A.qi('i')
         st.assume(z3.ForAll([i], z3.And(a.at(i) >= 0, a.at(i) < 1)))
+        st.ghost['rng_uniform_draws'] = st.ghost.get(
+            'rng_uniform_draws', ()) + (a,)
         return st.alloc(a, 'rand')
     L['rng.random'] = rng_random
     L['rng.uniform'] = rng_random
